@@ -78,7 +78,10 @@ class Ctx:
         elif scope == 'none': grown = []
         self.oblige('svx:no-new-opaque-productions(scope=%s)' % scope, not grown,
                     'productions no longer translatable (so no longer covered by the theorems): ' + ', '.join('%s (%s)' % (n, self.summary['opaque'][n]) for n in grown))
-        self.oblige('svx:keyword-tables-extracted', not self.summary['kw_problems'], '; '.join(self.summary['kw_problems']))
+        kwp = list(self.summary['kw_problems'])
+        if scope == 'pp': kwp = [x for x in kwp if 'directive' in x.lower()]    # the preprocessor grammar only uses the directive-name table
+        elif scope == 'none': kwp = []
+        self.oblige('svx:keyword-tables-extracted(scope=%s)' % scope, not kwp, '; '.join(kwp))
         self.cov['translated_productions'] = self.summary['productions'] - len(self.summary['opaque'])
         self.cov['opaque_productions'] = sorted(self.summary['opaque'])
         return self.summary
@@ -191,7 +194,7 @@ class Ctx:
             for p, pin, pout in procs:
                 p.wait(); fo.write(open(pout).read()); os.unlink(pin); os.unlink(pout)
 
-    def correspond(self, name, cases, impl, model, tags=None, project=None):
+    def correspond(self, name, cases, impl, model, tags=None, project=None, select=None):
         """diff implementation lines against model lines; every disagreement is a broken correspondence.
         `project` restricts both lines to the observables the property is about (the rest is compared by the checks of other properties)"""
         self.run_model(cases, model)
@@ -202,6 +205,12 @@ class Ctx:
         lt = open(tags).read().split('\n') if tags and os.path.exists(tags) else None
         if li and li[-1] == '': li.pop()
         if lm and lm[-1] == '': lm.pop()
+        skipped = 0
+        if select and lt is not None:
+            # cases whose constructs are not the property's business are compared by the checks of the properties they belong to
+            keep = [i for i in range(min(len(li), len(lt))) if li[i] != '' and select(lt[i])]
+            skipped = len([x for x in li if x != '']) - len(keep)
+            li = [li[i] for i in keep]; lm = [lm[i] if i < len(lm) else '' for i in keep]; lc = [lc[i] for i in keep]; lt = [lt[i] for i in keep]
         n = len(li)
         dis = []
         if len(lm) != n:
@@ -211,7 +220,7 @@ class Ctx:
                 dis.append((i, li[i][:200], lm[i][:200], (lt[i] if lt else '') + ' ' + lc[i][:400]))
         oof = sum(1 for x in lm if x == 'oof')
         self.programs += n; self.disagreements += len(dis)
-        self.cov.setdefault('correspondence', {})[name] = {'cases': n, 'disagreements': len(dis), 'model_out_of_fuel': oof,
+        self.cov.setdefault('correspondence', {})[name] = {'cases': n, 'cases_left_to_other_properties': skipped, 'disagreements': len(dis), 'model_out_of_fuel': oof,
             'examples': [{'case': d[3], 'impl': d[1], 'model': d[2]} for d in dis[:3]]}
         self.oblige('correspondence:' + name, not dis,
                     '%d of %d cases differ; first: impl=%r model=%r case=%r' % (len(dis), n, dis[0][1] if dis else '', dis[0][2] if dis else '', dis[0][3][:200] if dis else ''))
